@@ -1,2 +1,299 @@
-(* Model/Newick.v — executable model; no proofs here. *)
+(* Model/Newick.v — executable model of /repo/formats/newick (newick.go,
+   traverse.go); no proofs here.
+
+   Trees are values (the Go code works on pointers to nodes that are never
+   shared: a node under construction is reachable only through the reader's
+   stack and through its parent's Children slice, so the value view is
+   observationally the same).  Distances are canonical float texts ([F] of
+   Base.v); formatting (fmt.Fprint => %v) and parsing (strconv.ParseFloat)
+   come from the per-case float oracle [foracle]. *)
 From Bio Require Import Base.
+
+Inductive tree : Type :=
+| Node (name : bytes) (dist : F) (children : list tree).
+
+Definition t_name (t : tree) : bytes := match t with Node n _ _ => n end.
+Definition t_dist (t : tree) : F := match t with Node _ d _ => d end.
+Definition t_children (t : tree) : list tree := match t with Node _ _ c => c end.
+
+Fixpoint size (t : tree) : nat :=
+  match t with Node _ _ cs => S (list_sum (map size cs)) end.
+
+(* The float64 zero value, as written by strconv 'g'. *)
+Definition zeroF : F := [48].
+
+(* ------------------------------------------------------------------ *)
+(* traverse.go                                                          *)
+
+(* A node occurrence: the path from the root (child indices) and the node
+   (= subtree) found there.  Go yields the *Node pointer; distinct pointers
+   of a tree correspond to distinct paths. *)
+Definition path := list nat.
+Definition occ := (path * tree)%type.
+
+(* traversalStep{n, i}; the path is kept reversed (last index first). *)
+Definition tstep := (path * tree * nat)%type.
+
+(* for len(stack) > 0 { ... }, one iteration per unit of fuel *)
+Fixpoint traverse_loop (pre : bool) (fuel : nat) (stack : list tstep) (acc : list occ)
+  : outcome (list occ) :=
+  match stack with
+  | [] => Ok (rev acc)
+  | (p, n, i) :: rest =>
+    match fuel with
+    | O => Panic
+    | S fuel' =>
+      (* if pre && step.i == 0 { yield(step.n) } *)
+      let acc1 := if pre && Nat.eqb i 0 then (rev p, n) :: acc else acc in
+      if Nat.eqb i (length (t_children n)) then
+        (* if !pre { yield(step.n) }; stack = stack[:len(stack)-1] *)
+        let acc2 := if pre then acc1 else (rev p, n) :: acc1 in
+        traverse_loop pre fuel' rest acc2
+      else
+        match nth_error (t_children n) i with
+        | Some c =>
+          (* stack = append(stack, {Children[i], 0}); stack[stepi].i++ *)
+          traverse_loop pre fuel' ((i :: p, c, O) :: (p, n, S i) :: rest) acc1
+        | None => Panic      (* step.n.Children[step.i] out of range *)
+        end
+    end
+  end.
+
+Definition traverse (pre : bool) (t : tree) : outcome (list occ) :=
+  traverse_loop pre (2 * size t + 2) [(([] : path), t, O)] [].
+
+(* ------------------------------------------------------------------ *)
+(* names                                                                *)
+
+Definition QUOTE : byte := 39.
+Definition USCORE : byte := 95.
+
+(* strings.ContainsAny(s, "(),:;'_\t\n\r") *)
+Definition name_trigger (b : byte) : bool :=
+  (b =? 40) || (b =? 41) || (b =? 44) || (b =? 58) || (b =? 59) || (b =? 39)
+  || (b =? 95) || (b =? 9) || (b =? 10) || (b =? 13).
+
+(* strings.ReplaceAll(s, "'", "''") *)
+Fixpoint dbl_quotes (s : bytes) : bytes :=
+  match s with
+  | [] => []
+  | c :: r => if c =? 39 then 39 :: 39 :: dbl_quotes r else c :: dbl_quotes r
+  end.
+
+(* strings.ReplaceAll(s, "''", "'"): leftmost, non-overlapping *)
+Fixpoint undbl_quotes (s : bytes) : bytes :=
+  match s with
+  | [] => []
+  | c :: r =>
+    match r with
+    | [] => [c]
+    | d :: r' => if (c =? 39) && (d =? 39) then 39 :: undbl_quotes r' else c :: undbl_quotes r
+    end
+  end.
+
+Definition map_byte (a b : byte) (s : bytes) : bytes := map (fun c => if c =? a then b else c) s.
+
+Definition name_to_text (s : bytes) : bytes :=
+  if existsb name_trigger s then 39 :: dbl_quotes s ++ [39]
+  else map_byte 32 95 s.
+
+(* len(s) >= 2 && s[0] == '\'' && s[len(s)-1] == '\'' *)
+Definition quoted (s : bytes) : bool :=
+  (2 <=? length s)%nat && (hd 0 s =? 39) && (last s 0 =? 39).
+
+Definition name_from_text (s : bytes) : bytes :=
+  if quoted s then undbl_quotes (removelast (tl s))     (* s[1:len(s)-1] *)
+  else map_byte 95 32 s.
+
+(* ------------------------------------------------------------------ *)
+(* writer                                                               *)
+
+Section WithOracle.
+Variable o : foracle.
+
+Fixpoint newick_text (t : tree) : bytes :=
+  match t with
+  | Node name d cs =>
+    (match cs with
+     | [] => []
+     | c0 :: cr =>
+       40 :: newick_text c0
+          ++ (fix rest (l : list tree) : bytes :=
+                match l with [] => [] | c :: r => 44 :: newick_text c ++ rest r end) cr
+          ++ [41]
+     end)
+    ++ name_to_text name
+    ++ (if is_zeroF d then [] else 58 :: fmtF o d)     (* fmt.Fprint(buf, ":", n.Distance) *)
+  end.
+
+(* MarshalText; Write passes this to the writer as one chunk. *)
+Definition marshal (t : tree) : bytes := newick_text t ++ [59].
+Definition write_chunks (t : tree) : list bytes := [marshal t].
+
+(* ------------------------------------------------------------------ *)
+(* tokeniser                                                            *)
+
+Inductive tok_res : Type :=
+| TokOk (tok : bytes) (rest : bytes)
+| TokEOF                                (* io.EOF with nothing buffered *)
+| TokErr.                               (* read error, or unexpected ' *)
+
+Definition is_punct (b : byte) : bool :=
+  (b =? 40) || (b =? 41) || (b =? 44) || (b =? 58) || (b =? 59).
+Definition is_ws (b : byte) : bool :=
+  (b =? 32) || (b =? 9) || (b =? 10) || (b =? 13).
+Definition nonempty (s : bytes) : bool := match s with [] => false | _ => true end.
+
+(* [buf] is r.b reversed.  UnreadByte = the rest keeps the byte. *)
+Fixpoint tok_loop (quote afterq : bool) (buf : bytes) (s : bytes) (tm : term) : tok_res :=
+  match s with
+  | [] =>
+    (* ReadByte fails: if err == io.EOF && r.b.Len() > 0 { break } else return err *)
+    match tm with
+    | TEOF => if nonempty buf then TokOk (rev buf) [] else TokEOF
+    | TErr => TokErr
+    end
+  | b :: r =>
+    if quote then
+      if b =? 39 then tok_loop true (negb afterq) (b :: buf) r tm
+      else if afterq then TokOk (rev buf) s              (* end of quoted string *)
+      else tok_loop true afterq (b :: buf) r tm
+    else if b =? 39 then
+      (if nonempty buf then TokErr else tok_loop true afterq (b :: buf) r tm)
+    else if is_punct b then
+      (if nonempty buf then TokOk (rev buf) s else TokOk [b] r)
+    else if is_ws b then
+      (if nonempty buf then TokOk (rev buf) r else tok_loop false afterq buf r tm)
+    else tok_loop false afterq (b :: buf) r tm
+  end.
+
+Definition next_token (s : bytes) (tm : term) : tok_res := tok_loop false false [] s tm.
+
+(* ------------------------------------------------------------------ *)
+(* reader                                                               *)
+
+Inductive rstate : Type := BeforeNode | AfterName | AfterColon | AfterDist | AfterChildren.
+
+Definition st_eqb (a b : rstate) : bool :=
+  match a, b with
+  | BeforeNode, BeforeNode | AfterName, AfterName | AfterColon, AfterColon
+  | AfterDist, AfterDist | AfterChildren, AfterChildren => true
+  | _, _ => false
+  end.
+
+(* A node under construction: name, distance, the children completed so far
+   (latest first).  In Go the child under construction is already the last
+   element of its parent's Children; here it is the next frame of the stack
+   and is attached when it is completed (',' or ')'). *)
+Record frame : Type := { fr_name : bytes; fr_dist : F; fr_kids : list tree }.
+
+Definition fresh : frame := {| fr_name := []; fr_dist := zeroF; fr_kids := [] |}.   (* &Node{} *)
+Definition close (f : frame) : tree := Node (fr_name f) (fr_dist f) (rev (fr_kids f)).
+Definition add_kid (t : tree) (f : frame) : frame :=
+  {| fr_name := fr_name f; fr_dist := fr_dist f; fr_kids := t :: fr_kids f |}.
+Definition set_name (n : bytes) (f : frame) : frame :=
+  {| fr_name := n; fr_dist := fr_dist f; fr_kids := fr_kids f |}.
+Definition set_dist (d : F) (f : frame) : frame :=
+  {| fr_name := fr_name f; fr_dist := d; fr_kids := fr_kids f |}.
+
+(* One configuration of read()'s loop: state, stack (top frame and the frames
+   below it, so len(stack) = 1 + length below), readAny, remaining input. *)
+Record config : Type :=
+  { c_state : rstate; c_top : frame; c_below : list frame; c_any : bool; c_input : bytes }.
+
+Inductive read_res : Type :=
+| ROk (t : tree) (rest : bytes)
+| REOF                                  (* io.EOF before any token *)
+| RErr                                  (* any other error, incl. io.ErrUnexpectedEOF *)
+| RPanic.
+
+Inductive step_res : Type :=
+| Continue (c : config)
+| Done (r : read_res).
+
+(* one iteration of the loop of read() *)
+Definition read_step (tm : term) (c : config) : step_res :=
+  let st := c_state c in
+  match next_token (c_input c) tm with
+  | TokEOF => if c_any c then Done RErr (* io.ErrUnexpectedEOF *) else Done REOF
+  | TokErr => Done RErr
+  | TokOk tok rest =>
+    if beqb tok [40] then                                            (* "(" *)
+      if negb (st_eqb st BeforeNode) then Done RErr
+      else Continue {| c_state := st; c_top := fresh; c_below := c_top c :: c_below c;
+                       c_any := true; c_input := rest |}
+    else if beqb tok [41] then                                       (* ")" *)
+      if st_eqb st AfterColon then Done RErr
+      else match c_below c with
+           | [] => Done RErr                                         (* too many ')' *)
+           | parent :: below' =>
+             Continue {| c_state := AfterChildren; c_top := add_kid (close (c_top c)) parent;
+                         c_below := below'; c_any := true; c_input := rest |}
+           end
+    else if beqb tok [44] then                                       (* "," *)
+      if st_eqb st AfterColon then Done RErr
+      else match c_below c with
+           | [] => Done RErr                                         (* ',' after top level node *)
+           | parent :: below' =>
+             Continue {| c_state := BeforeNode; c_top := fresh;
+                         c_below := add_kid (close (c_top c)) parent :: below';
+                         c_any := true; c_input := rest |}
+           end
+    else if beqb tok [58] then                                       (* ":" *)
+      if st_eqb st AfterColon || st_eqb st AfterDist then Done RErr
+      else Continue {| c_state := AfterColon; c_top := c_top c; c_below := c_below c;
+                       c_any := true; c_input := rest |}
+    else if beqb tok [59] then                                       (* ";" *)
+      match c_below c with
+      | _ :: _ => Done RErr                                          (* ';' at depth > 1 *)
+      | [] => if st_eqb st AfterColon then Done RErr
+              else Done (ROk (close (c_top c)) rest)
+      end
+    else                                                             (* default *)
+      if st_eqb st AfterName || st_eqb st AfterDist then Done RErr
+      else if st_eqb st BeforeNode || st_eqb st AfterChildren then
+        Continue {| c_state := AfterName; c_top := set_name (name_from_text tok) (c_top c);
+                    c_below := c_below c; c_any := true; c_input := rest |}
+      else if negb (st_eqb st AfterColon) then Done RPanic           (* panic("unexpected state") *)
+      else match parseF o tok with
+           | None => Done RErr
+           | Some d =>
+             Continue {| c_state := AfterDist; c_top := set_dist d (c_top c);
+                         c_below := c_below c; c_any := true; c_input := rest |}
+           end
+  end.
+
+Fixpoint read_loop (fuel : nat) (tm : term) (c : config) : read_res :=
+  match fuel with
+  | O => RPanic
+  | S f => match read_step tm c with
+           | Continue c' => read_loop f tm c'
+           | Done r => r
+           end
+  end.
+
+Definition init_config (s : bytes) : config :=
+  {| c_state := BeforeNode; c_top := fresh; c_below := []; c_any := false; c_input := s |}.
+
+(* read(): every iteration that continues consumed at least one byte *)
+Definition read_tree (s : bytes) (tm : term) : read_res :=
+  read_loop (S (length s)) tm (init_config s).
+
+(* Reader: the items yielded (an error item is the last one). *)
+Fixpoint decode_loop (fuel : nat) (s : bytes) (tm : term) (acc : list (item tree))
+  : outcome (list (item tree)) :=
+  match fuel with
+  | O => Panic
+  | S f =>
+    match read_tree s tm with
+    | REOF => Ok (rev acc)
+    | RErr => Ok (rev (ErrItem :: acc))
+    | RPanic => Panic
+    | ROk t rest => decode_loop f rest tm (Rec t :: acc)
+    end
+  end.
+
+Definition decode (s : bytes) (tm : term) : outcome (list (item tree)) :=
+  decode_loop (S (length s)) s tm [].
+
+End WithOracle.
